@@ -17,7 +17,7 @@ from typing import cast, Any, ClassVar, Optional, Union
 
 import elementpath.aliases as ta
 
-from elementpath.exceptions import xpath_error, UnsupportedFeatureError, \
+from elementpath.exceptions import xpath_error, UnsupportedFeatureError, ElementPathError, \
     ElementPathValueError, ElementPathNameError, ElementPathKeyError, MissingContextError
 from elementpath.namespaces import XML_NAMESPACE, XSD_NAMESPACE, XPATH_FUNCTIONS_NAMESPACE
 from elementpath.helpers import upper_camel_case
@@ -257,7 +257,14 @@ class XPath1Parser(Parser[ta.XPathTokenType]):
         if self.schema is not None:
             # Static evaluation using a schema context
             context = self.schema.get_context()
-            for _ in root_token.select(context):
+            try:
+                for _ in root_token.select(context):
+                    pass
+            except ElementPathError:
+                raise
+            except (AttributeError, TypeError, ValueError, AssertionError, LookupError):
+                # the sample values of the schema nodes may lack a required argument
+                # (e.g. a relative path that selects nothing from the schema root)
                 pass
 
         return root_token
